@@ -80,7 +80,7 @@ def is_late(r):
 
 def in_model_domain(case):
     """release_conn=True passed explicitly together with preload_content=False is judged by the oracle only"""
-    return not any(q.get("release_now") for q in case["reqs"]) and not any(r.get("interim") for r in case["replies"])
+    return not any(q.get("release_now") or q.get("noauto") for q in case["reqs"]) and not any(r.get("interim") for r in case["replies"])
 
 
 def enc_reply(r):
@@ -285,6 +285,8 @@ def impl(case):
                     problems.append("a raw %s reached the caller" % type(e).__name__)
                 if resp is not None:
                     c = rq["caller"]
+                    if rq.get("noauto") and not rq["preload"]:
+                        resp.auto_close = False          # the documented setting for wrapping a response in io.TextIOWrapper
                     try:
                         if rq["preload"]:
                             delivered = resp.data
@@ -304,6 +306,8 @@ def impl(case):
                             resp.drain_conn()
                         elif c[0] == "close":
                             resp.close()
+                            if rq.get("noauto"):
+                                resp.release_conn()
                         elif c[0] == "stream":
                             acc = bytearray()
                             try:
@@ -502,6 +506,11 @@ def cases(rng, tier):
                 out.append({"maxsize": maxsize, "reqs": [{"head": False, "preload": False, "caller": list(c)}, {"head": False, "preload": False, "caller": ["read_all"]},
                                                          {"head": False, "preload": True, "caller": ["read_all"]}],
                             "replies": [dict(PLAIN, first=first, late=True)] + [dict(PLAIN)] * 12})
+                if c[0] in ("close", "read_k", "release", "read1"):
+                    # auto_close switched off by the caller (io.TextIOWrapper use): close() then release_conn() still closes the connection
+                    out.append({"maxsize": maxsize, "reqs": [{"head": False, "preload": False, "noauto": True, "caller": list(c)}, {"head": False, "preload": False, "caller": ["read_all"]},
+                                                             {"head": False, "preload": True, "caller": ["read_all"]}],
+                                "replies": [dict(PLAIN, first=first, late=True)] + [dict(PLAIN)] * 12})
                 for st in (201, 205, 206, 404, 500):
                     # the same for other statuses whose responses carry a body (205 Reset Content with a Content-Length does)
                     out.append({"maxsize": maxsize, "reqs": [{"head": False, "preload": False, "caller": list(c)}, {"head": False, "preload": False, "caller": ["read_all"]},
